@@ -1,4 +1,4 @@
 SPECIFICATION Spec
 CONSTANTS Emit = FALSE
-INVARIANTS WellFormed EveryFunctionDefined BottomsOut InversePairing ReciprocalPairing RangesAttached CutsBothSides BranchPointNeighbourhoods MatrixShape ExactCasesSound Cursor
+INVARIANTS WellFormed EveryFunctionDefined BottomsOut InversePairing ReciprocalPairing RangesAttached CutsBothSides BranchPointNeighbourhoods PoleNeighbourhoods ExactArguments MatrixShape ExactCasesSound Cursor
 CHECK_DEADLOCK FALSE
